@@ -720,3 +720,14 @@ Proof. reflexivity. Qed.
 
 Lemma pre_opx_post_unfold : forall c o c', pre (c, o, c') = c /\ opx (c, o, c') = o /\ post (c, o, c') = c'.
 Proof. repeat split. Qed.
+
+(* F-6, second way: the drain path half-closes while a foreign block is still queued *)
+Lemma f6_drain_path_witness :
+  exists c e, run (init 1024%N true true)
+                  [Establish; Send [x61; x62; x63; x64] (Accept 1); FSendCheck 1; FSendEnq 1 [x65; x66];
+                   Shutdown; EvWritable AcceptAll; RunOne AcceptAll; RunOne AcceptAll]
+              = Ok (c, e) /\
+    enq c = [(1, [x65; x66])] /\ ran c = [(1, [x65; x66])] /\
+    wire c = [x61; x62; x63; x64] /\ outb c = [] /\ accepted c = [x61; x62; x63; x64] /\
+    fin c = true /\ st c = Disconnecting /\ e = [EvUp; EvFin; EvErrorLogged; EvWC].
+Proof. vm_compute. eexists _, _. repeat split. Qed.
